@@ -81,12 +81,14 @@ class EnvironmentVariables(HoldableObject):
         return repr_str.format(self.__class__.__name__, self.envvars)
 
     def hash(self, hasher: _Hash) -> None:
-        myenv = self.get_env({})
-        for key in sorted(myenv.keys()):
-            hasher.update(bytes(key, encoding='utf-8'))
-            hasher.update(b',')
-            hasher.update(bytes(myenv[key], encoding='utf-8'))
-            hasher.update(b';')
+        # The digest names the serialised wrapper of a command, so it has to
+        # tell apart every two environments that can behave differently: hash
+        # the operations themselves (set/append/prepend, name, values and
+        # separator, in order) and the unset names, in an encoding that keeps
+        # the boundaries between them.
+        ops = [(method.__name__, name, values, separator)
+               for method, name, values, separator in self.envvars]
+        hasher.update(repr((ops, sorted(self.unset_vars))).encode('utf-8'))
 
     def has_name(self, name: str) -> bool:
         return name in self.varnames
